@@ -16,20 +16,21 @@ Lemma filter_neg_map_nojoin : forall (f : nat -> bmsg) l, (forall x, is_join (f 
 Proof. intros f l H. induction l; cbn; [reflexivity|]. rewrite H. cbn. congruence. Qed.
 
 (* the burst is what the settings say (the generated burst against the hand-written reading of the property) *)
-Lemma burst_exact : forall s p sh, login_burst s p sh = spec_burst s p sh.
+Lemma burst_exact : forall s p sh par, login_burst s p sh par = spec_burst s p sh par.
 Proof.
-  intros. unfold login_burst, burst_network, burst_distributed, burst_users, burst_rooms, burst_interests, burst_shares, spec_burst.
-  rewrite <- !app_assoc. reflexivity.
+  intros. unfold login_burst, burst_network, burst_distributed, burst_users, burst_rooms, burst_interests, burst_shares, spec_burst, spec_branch.
+  rewrite ?app_nil_r. rewrite <- !app_assoc. destruct par as [[lvl root]|]; reflexivity.
 Qed.
 
 (* and the favourite rooms are in it iff auto_join *)
-Lemma burst_joins : forall s p sh,
-  filter is_join (login_burst s p sh) = (if s_auto_join s then map JoinRoom (s_favorites s) else []).
+Lemma burst_joins : forall s p sh par,
+  filter is_join (login_burst s p sh par) = (if s_auto_join s then map JoinRoom (s_favorites s) else []).
 Proof.
-  intros. rewrite burst_exact. unfold spec_burst. cbn [app filter is_join negb].
-  rewrite !filter_app. cbn [filter is_join]. rewrite !filter_app.
-  rewrite !(filter_map_nojoin AddUser), !(filter_map_nojoin AddInterest), !(filter_map_nojoin AddHatedInterest) by reflexivity.
-  cbn [filter is_join app]. rewrite !app_nil_r.
+  intros. rewrite burst_exact. unfold spec_burst, spec_branch.
+  destruct par as [[lvl root]|]; cbn [app filter is_join negb];
+  rewrite !filter_app; cbn [filter is_join]; rewrite !filter_app;
+  rewrite !(filter_map_nojoin AddUser), !(filter_map_nojoin AddInterest), !(filter_map_nojoin AddHatedInterest) by reflexivity;
+  cbn [filter is_join app]; rewrite !app_nil_r;
   destruct (s_auto_join s); cbn [filter]; rewrite ?filter_map_join; reflexivity.
 Qed.
 
@@ -76,7 +77,7 @@ Proof.
   apply (allb_ok _ (allb_ok _ (allb_ok _ (allb_ok _ (allb_ok _ (allb_ok _ (allb_ok _ (allb_ok _ (allc_ok _ H c) a1) a2) a3) a4) a5) a6) a7) a8).
 Qed.
 
-Definition allreason (f : reason -> bool) : bool := f REof && f RRead && f RWrite && f RTimeout && f RRequested.
+Definition allreason (f : reason -> bool) : bool := f REof && f RRead && f RWrite && f RTimeout && f RRequested && f RConnectFailed && f RUnknown.
 Lemma allreason_ok : forall f, allreason f = true -> forall r, f r = true.
 Proof. intros f H r. unfold allreason in H. repeat (apply andb_prop in H; destruct H as [H ?]). destruct r; assumption. Qed.
 Definition allreply (f : reply -> bool) : bool := f RepOk && f RepRejected && f RepGarbled && f RepEof.
@@ -88,13 +89,13 @@ Lemma allhandler_ok : forall f, allhandler f = true -> forall h, f h = true.
 Proof. intros f H h. unfold allhandler in H. repeat (apply andb_prop in H; destruct H as [H ?]). destruct h; assumption. Qed.
 
 Definition allev (f : event -> bool) : bool :=
-  allb (fun b => f (Start b)) && allreply (fun r => f (Login r)) && allhandler (fun h => f (LoginCut h)) && f Dist && f Parents &&
+  allb (fun b => f (Start b)) && allreply (fun r => f (Login r)) && allhandler (fun h => f (LoginCut h)) && f Dist && f Parents && f ParentUp &&
   allreason (fun r => f (Lost r)) && allreason (fun r => f (LostInTracking r)) && allb (fun b => f (Tick b)) && f Command && f Stop.
 Lemma allev_ok : forall f, allev f = true -> forall e, f e = true.
 Proof.
   intros f H e. unfold allev, allb, allreply, allhandler, allreason in H.
   repeat match goal with K : _ && _ = true |- _ => apply andb_prop in K; destruct K end.
-  destruct e as [[]|[]|[]| | |[]|[]|[]| | ]; assumption.
+  destruct e as [[]|[]|[]| | |[]|[]| |[]| | ]; assumption.
 Qed.
 
 (* a boolean state predicate preserved by every step whose event passes [ok] *)
@@ -196,6 +197,15 @@ Definition reconnect_b (auto : bool) : bool :=
     (let y := fst (step auto x (Lost r)) in
      Bool.eqb (Nat.ltb 0 (count OConnect (snd (step auto y (Tick true))))) (auto && keeps_watchdog r)))).
 Lemma reconnect_ok : forall auto, reconnect_b auto = true.
+Proof. intros []; vm_compute; reflexivity. Qed.
+
+(* a failed reconnect attempt leaves the watchdog running and the connection closed: it tries again *)
+Definition persists_b (auto : bool) : bool :=
+  allst (fun x => implb (match conn x with Closed => watchdog x | _ => false end)
+    (let y := fst (step auto x (Tick false)) in
+     (match conn y with Closed => watchdog y | _ => false end) &&
+     Nat.eqb (count OConnect (snd (step auto x (Tick false)))) 1 && Nat.ltb 0 (count OConnect (snd (step auto y (Tick true)))))).
+Lemma persists_ok : forall auto, persists_b auto = true.
 Proof. intros []; vm_compute; reflexivity. Qed.
 
 (* ---- refutations: concrete event lists ---- *)
